@@ -32,3 +32,31 @@ def depth_at(cov, mut):
 def hq(profile, ob):
     """An observation (mapq, quality) meets both quality thresholds."""
     return ob[1] >= profile.min_quality and ob[0] >= profile.min_mapq
+
+
+def gene_wf(gene):
+    """Gene invariant used by the look-ups (established by Gene._init_regions / _init_alleles):
+    every position of the region index names an existing region of an existing gene copy."""
+    return forall(lambda p=int: implies(p in gene._region_at,
+                                        0 <= gene._region_at[p][0] and gene._region_at[p][0] < len(gene.regions)
+                                        and gene._region_at[p][1] in gene.regions[gene._region_at[p][0]]))
+
+
+def cn_wf(cn):
+    """CNSolution invariant: one copy-number table per gene copy, covering every region name."""
+    return (len(cn.region_cn) == len(cn.gene.regions)
+            and forall(lambda g=int, r=str: implies(0 <= g and g < len(cn.gene.regions) and r in cn.gene.regions[g],
+                                                    r in cn.region_cn[g] and cn.region_cn[g][r] >= 0))
+            and gene_wf(cn.gene))
+
+
+def copies_at(cn, pos):
+    """Copy number of the structure at a genome position (0 outside the named regions)."""
+    return (cn.region_cn[cn.gene._region_at[pos][0]][cn.gene._region_at[pos][1]]
+            if pos in cn.gene._region_at else 0)
+
+
+def passes(cov, mut, copies):
+    """C15: at least the configured minimum number of reads, and the per-copy fraction threshold."""
+    return (support(cov, mut) >= cov.profile.min_coverage
+            and support(cov, mut) * copies >= depth_at(cov, mut) * cov.profile.threshold)
